@@ -571,5 +571,7 @@ func (svr *Server) getSession(svc *service, req *message.ConnectMessage, resp *m
 		}
 	}
 
+	svc.cmsg, svc.will = svc.sess.Cmsg, svc.sess.Will
+
 	return nil
 }
